@@ -174,7 +174,7 @@ static void build_state_alphabet(void) {
 /* =================================================================== C10 */
 /* interface 0 = responder A, interface 1 = responder B, one core instance serves both (as in the daemons) */
 static struct m10 { uint8_t qn; uint8_t q[3][32]; uint16_t delivered; } M10;   /* delivered: bit (srcidx*2+kind) */
-enum { X_DISC_A, X_DISC_A_BR, X_DISC_B, X_DELIVER, X_HELLO_B, X_PROBE_PEER_B, X_QUERY_B, X_QUERY_B_BR, X_RESET_B, X_OTHER_EMITTER_B, X_QRESET_B, X_EMIT0 };
+enum { X_DISC_A, X_DISC_A_BR, X_DISC_B, X_DELIVER, X_HELLO_B, X_PROBE_PEER_B, X_QUERY_B, X_QUERY_B_BR, X_RESET_B, X_OTHER_EMITTER_B, X_QRESET_B, X_EMIT_X, X_EMIT0 };
 static int QCAP = 3;                    /* bound on the in-flight queue (quick tier: 2) */
 static int NEMIT; static struct { uint8_t n; uint8_t d[2]; } EM[512];     /* descriptor code: kind | pause<<1 | dstB<<2 | srcA<<3 | srcB<<4 (the mapper may choose ANY Ethernet source, also the observer's own address) */
 static const uint8_t *addrA(void) { return W.iface[0].mac; }
@@ -199,7 +199,8 @@ static int towardsB(int ev) { int n = 0; for (int i = 0; i < EM[ev - X_EMIT0].n;
 
 static void x_name(int ev, char *buf, size_t cap) {
     static const char *n[] = {"Discover(M1)->A", "Discover(M1 via BR)->A", "Discover(M1)->B", "deliver oldest in-flight frame to B", "Hello(PEER)->B", "Probe(for PEER)->B",
-                              "Query(M1)->B", "Query(M1 via BR)->B", "Reset->B", "Train(from responder C, Ethernet source S0 as ordered by the mapper)->B", "Reset(quick discovery)->B"};
+                              "Query(M1)->B", "Query(M1 via BR)->B", "Reset->B", "Train(from responder C, Ethernet source S0 as ordered by the mapper)->B", "Reset(quick discovery)->B",
+                              "Emit(M1)->X, a third interface of A's host [Probe p0 S0>PEER]"};
     if (ev < X_EMIT0) { snprintf(buf, cap, "%s", n[ev]); return; }
     size_t o = (size_t)snprintf(buf, cap, "Emit(M1)->A[");
     for (int i = 0; i < EM[ev - X_EMIT0].n; i++) {
@@ -209,6 +210,7 @@ static void x_name(int ev, char *buf, size_t cap) {
     snprintf(buf + o, cap - o, "]");
 }
 static int x_enabled(int ev) {
+    if (ev == X_EMIT_X) return A.a == 4;      /* the emitting host is multi-homed: it also emits on another interface */
     if (A.a >= 3 && (ev == X_DISC_A_BR || ev == X_QUERY_B_BR || ev == X_HELLO_B || ev == X_PROBE_PEER_B || ev == X_OTHER_EMITTER_B)) return 0;
     if (ev == X_DELIVER) return M10.qn > 0;
     if (ev >= X_EMIT0) return M10.qn + towardsB(ev) <= QCAP;
@@ -252,6 +254,10 @@ static void x_apply(int ev) {
             M10.delivered = 0; break; }
         case X_OTHER_EMITTER_B:     /* unrelated traffic: a third responder emits towards B with the same spoofed Ethernet source */
             fb_base(f, addrB(), vf_station[ST_S0], 0, 0x03, addrB(), vf_station[ST_PEER], 0); deliver_to(1, f, 32); break;
+        case X_EMIT_X: {      /* served on interface 2 of the same responder process; nothing of it reaches B */
+            fb_desc dx; dx.type = 1; dx.pause = 0; memcpy(dx.src, vf_station[ST_S0], 6); memcpy(dx.dst, vf_station[ST_PEER], 6);
+            len = fb_emit(f, W.iface[2].mac, vf_station[ST_M1], W.iface[2].mac, vf_station[ST_M1], 0, 0x0055, 1, &dx, 1);
+            deliver_to(2, f, len); break; }
         case X_QRESET_B: { pev e = ev_reset(1, ST_M1); len = pev_build(&e, 1, f); deliver_to(1, f, len); break; }     /* the quick-discovery service ends: the topology session's observations stay */
         case X_RESET_B: { pev e = ev_reset(0, ST_M1); len = pev_build(&e, 1, f); deliver_to(1, f, len); M10.delivered = 0; break; }
         default: {
